@@ -32,16 +32,21 @@ RULES = {
     "overlong / surrogate sequences before, directly after and below a prefix) x 2 root paths; both interfaces (ASGI sees the "
     "server's U+FFFD decoding)",
     "mount_seq": "enumerated: every ordered triple over 7 paths sent to ONE mount object (6 tables with shadowed / nested / default "
-    "entries); each answer judged like a single request; both interfaces",
+    "entries); a path before / after / around each of ~30 other spellings of it (letter case, slashes, dot segments, escapes, blanks, "
+    "delimiters; also tables whose entries differ in letter case only); one path below three different root paths (also absent); "
+    "each answer judged like a single request; both interfaces",
+    "mount_seqs": "Hypothesis: 2..4 requests to ONE mount object over random nested tables: a matching path, other spellings of it, varying root paths",
     "mount_ws": "enumerated: ASGI websocket scopes through flat and nested mounts (tables of <= 2 entries over 4 prefixes x 12 paths x 3 root paths)",
     "hosts_fixed": "enumerated: small tables x Host absent / empty / foreign / member / upper-cased member x server address foreign / equal "
     "to a member / numeric; alternations whose earlier alternative is a prefix of a later one; Host values with 8-bit bytes; "
     "X-Forwarded-Host / Forwarded / X-Host style headers next to (before and after) or instead of Host; ASGI websocket scopes",
-    "hosts_seq": "enumerated: every ordered pair and triple over 6 Host values sent to ONE Hosts object (3 tables whose languages overlap); both interfaces",
+    "hosts_seq": "enumerated: every ordered pair and triple over 6 Host values sent to ONE Hosts object (3 tables whose languages overlap); for every pattern "
+    "kind a member before / after / around each of ~50 near-misses of it (letter case, port, blanks, dots, user info, 8-bit bytes ...); tables whose "
+    "entries differ in letter case only or accept every letter case x all pairs and triples over 7 case / port variants; each answer judged on its own; both interfaces",
     "hosts": "Hypothesis: host tables of 1..4 patterns from a constructive family (escaped literal, optional www., wildcard "
-    "subdomain (greedy and lazy), label class, optional port, top-level alternation of literals incl. literals that are prefixes of "
+    "subdomain (greedy and lazy), label class, optional port, literal in any letter case, top-level alternation of literals incl. literals that are prefixes of "
     "one another) so that membership is decided by construction, x Host values (members, members with prefix/suffix "
-    "junk, 8-bit bytes, ports, upper-case, empty, absent) x other host-like headers x scope type; non-trivial = a near-miss host (junk around a member)",
+    "junk, 8-bit bytes, ports, upper-case, empty, absent) x other host-like headers x scope type x optionally 1..2 further requests to the same Hosts object (the member, other spellings of it); non-trivial = a near-miss host (junk around a member)",
 }
 ASSUMPTIONS = [
     "the WSGI environ carries paths in the PEP 3333 bytes-as-Latin-1 form; they are compared after decoding as UTF-8, and what a mount "
@@ -310,7 +315,7 @@ def oracle_mount_seq(case) -> Result:
             judge_mount(r, side, app, sink, table, rq, ctx)
             if len(r.failures) > before:
                 break
-    r.nontrivial = len({q.get("path") for q in case["requests"]}) >= 2
+    r.nontrivial = len({(q.get("root"), q.get("path")) for q in case["requests"]}) >= 2
     r.weight = len(case["requests"])
     r.label(f"requests={len(case['requests'])}")
     return r
@@ -318,6 +323,13 @@ def oracle_mount_seq(case) -> Result:
 
 # ------------------------------------------------------------------------------------------
 # hosts
+
+
+_ASCII_LOWER = {ord(c): ord(c.lower()) for c in "ABCDEFGHIJKLMNOPQRSTUVWXYZ"}
+
+
+def _ascii_lower(s):
+    return s.translate(_ASCII_LOWER)
 
 
 def host_language(pat, host):
@@ -333,6 +345,9 @@ def host_language(pat, host):
         return host.endswith("." + lit) and label != "" and all(c in "abcdefghijklmnopqrstuvwxyz0123456789-" for c in label)
     if kind == "alt":
         return host in lit.split("|")
+    if kind == "ci":
+        # (?i:literal) over ASCII literals: Host values are Latin-1, where only A-Z / a-z fold onto ASCII letters
+        return _ascii_lower(host) == _ascii_lower(lit)
     if kind == "port":
         if host == lit:
             return True
@@ -348,7 +363,7 @@ def host_regex(pat):
     if kind == "alt":  # top-level alternation of escaped literals
         return "|".join(re.escape(x) for x in lit.split("|"))
     e = re.escape(lit)
-    return {"lit": e, "www": r"(www\.)?" + e, "sub": r".*\." + e, "lazy": r".*?\." + e, "cls": r"[a-z0-9-]+\." + e, "port": e + r"(:\d+)?"}[kind]
+    return {"lit": e, "www": r"(www\.)?" + e, "sub": r".*\." + e, "lazy": r".*?\." + e, "cls": r"[a-z0-9-]+\." + e, "port": e + r"(:\d+)?", "ci": "(?i:" + e + ")"}[kind]
 
 
 def _hosts_app(table, side, seen):
@@ -435,7 +450,7 @@ def oracle_hosts(case) -> Result:
 
 
 SUBS = {"mounts": oracle_mounts, "mount_grid": oracle_mounts, "mount_special": oracle_mounts, "mount_bytes": oracle_mounts, "mount_ws": oracle_mounts,
-        "mount_seq": oracle_mount_seq, "hosts": oracle_hosts, "hosts_fixed": oracle_hosts, "hosts_seq": oracle_hosts}
+        "mount_seq": oracle_mount_seq, "mount_seqs": oracle_mount_seq, "hosts": oracle_hosts, "hosts_fixed": oracle_hosts, "hosts_seq": oracle_hosts}
 
 # ------------------------------------------------------------------------------------------
 
@@ -523,6 +538,16 @@ def mount_case(draw):
     return case
 
 
+@st.composite
+def mount_seq_case(draw):
+    """2..4 requests to one mount object: a path that matches something, other spellings of it, the same path below another root path"""
+    table = draw(tables())
+    base = draw(st.sampled_from(_all_prefixes(table) + PREFIXES)) + draw(st.sampled_from(["", "", "/", "/x", "/a", "/a/b"]))
+    pool = [base, base] + (path_variants(base) if base else ["/", " "]) + [p + "/x" for p in _all_prefixes(table)]
+    n = draw(st.integers(2, 4))
+    return {"table": table, "requests": [{"root": draw(st.sampled_from(ROOTS)), "path": draw(st.sampled_from(pool))} for _ in range(n)]}
+
+
 GRID_PREFIXES = ["", "/a", "/a/b", "/ab", "/é"]
 GRID_PATHS = ["", "/", "/a", "/a/", "/ab", "/a/b", "/a/b/", "/a/bc", "/abc", "/ab/c", "/a/b/c/d", "/é", "/é/x", "/zzz", "/a\n", "\n", "/a/b\n", "/a\n/b", "/a\r", "/ab\n"]
 
@@ -608,6 +633,21 @@ SEQ_TABLES = [
 SEQ_PATHS = ["/a", "/a/b", "/a/b/c", "/ab", "/x", "", "/a/c"]
 
 
+SEQ_CASE_TABLES = [
+    [["/A", "e0"], ["/a", "e1"]],
+    [["/a", "e0"], ["/A", "e1"], ["", "e2"]],
+    [["/a", [["/B", "n0"], ["/b", "n1"]]], ["/A", [["/b", "n2"]]]],
+]
+
+
+def path_variants(p):
+    """near-misses of a path: none is the same path, each is what some normalisation would map onto it"""
+    out = [respell(p, how) for how in RESPELL]
+    out += [p + t for t in (" ", "\n", "\t", ";x", "%20", "/", "//", "x", "?", "?x=1", "#", ".", "/.", "/..", "\x00", "\u200b")]
+    out += [" " + p, p.title(), p.swapcase(), p.rstrip("/") + "/"]
+    return [v for v in dict.fromkeys(out) if v != p]
+
+
 def seq_cases(full=False):
     for table in SEQ_TABLES:
         for n in ((2, 3, 4) if full else (3,)):
@@ -615,6 +655,17 @@ def seq_cases(full=False):
                 if len(set(combo)) < 2:
                     continue
                 yield {"table": table, "requests": [{"root": "", "path": p} for p in combo]}
+    # a path, then (or after, or around) another spelling of it, on one mount object
+    for table in SEQ_TABLES + SEQ_CASE_TABLES:
+        for p in ("/a", "/a/b", "/a/b/c", "/ab", "/a/c", "/A", "/A/b"):
+            for v in path_variants(p):
+                for combo in ((p, v), (v, p), (p, v, p)):
+                    yield {"table": table, "requests": [{"root": "", "path": q} for q in combo], "respelled": True}
+    # the same path below different root paths (also absent) on one mount object
+    for table in SEQ_TABLES:
+        for p in ("/a", "/a/b/c", "/x", ""):
+            for roots in itertools.permutations(["", "/root", "/a", None], 3):
+                yield {"table": table, "requests": [{"root": rt, "path": p} for rt in roots], "respelled": True}
 
 
 def ws_cases():
@@ -654,7 +705,7 @@ def _other(name, value):
 @st.composite
 def host_case(draw):
     entry = st.one_of(
-        st.tuples(st.sampled_from(["lit", "www", "sub", "port", "lazy", "cls"]), st.sampled_from(LITS)),
+        st.tuples(st.sampled_from(["lit", "www", "sub", "port", "lazy", "cls", "ci"]), st.sampled_from(LITS + ["CDN.example.com", "Example.COM"])),
         st.tuples(st.just("alt"), st.lists(st.sampled_from(LITS), min_size=2, max_size=3, unique=True).map("|".join)),
     ).map(list)
     table = draw(st.lists(entry, min_size=1, max_size=4))
@@ -662,7 +713,8 @@ def host_case(draw):
     first = lit.split("|")[0]
     member = {"lit": lit, "www": draw(st.sampled_from([lit, "www." + lit])), "sub": draw(st.sampled_from(["a." + lit, "a.b." + lit, "." + lit, "\xe9." + lit, "A." + lit])),
               "lazy": draw(st.sampled_from(["a." + lit, lit + "." + lit, "." + lit])), "cls": draw(st.sampled_from(["a." + lit, "a-1." + lit, "0." + lit])),
-              "port": draw(st.sampled_from([lit, lit + ":80", lit + ":8080"])), "alt": draw(st.sampled_from(lit.split("|")))}[kind]
+              "port": draw(st.sampled_from([lit, lit + ":80", lit + ":8080"])), "alt": draw(st.sampled_from(lit.split("|"))),
+              "ci": draw(st.sampled_from([lit, lit.upper(), lit.lower(), lit.title()]))}[kind]
     lit = first
     mode = draw(st.sampled_from(["member", "member", "near", "near", "other", "absent"]))
     near = False
@@ -697,6 +749,14 @@ def host_case(draw):
         case["near_miss"] = True
     if draw(st.integers(0, 7)) == 0:
         case["scope_type"] = "websocket"
+    if draw(st.integers(0, 2)) == 0:
+        # further requests to the same Hosts object: the member, other spellings of it, of the first value
+        pool = [member, member, host] + junk_hosts(member) + ([host.upper(), host.lower(), host.title(), host + ":80", " " + host] if host else [])
+        more = draw(st.lists(st.sampled_from(pool), min_size=1, max_size=2))
+        order = draw(st.sampled_from(["after", "before", "around"]))
+        case["seq"] = {"after": [host] + more, "before": more + [host], "around": [member] + more + [member]}[order]
+        del case["host"]
+        case["near_miss"] = True
     return case
 
 
@@ -756,6 +816,21 @@ HOSTS_SEQ_TABLES = [
 HOSTS_SEQ_VALUES = ["example.com", "www.example.com", "example.com:80", "a.example.com", "evil.com", None]
 
 
+KIND_MEMBERS = [("lit", "example.com", "example.com"), ("www", "example.com", "www.example.com"), ("sub", "example.com", "a.example.com"),
+                ("lazy", "example.com", "a.example.com"), ("cls", "example.com", "a-1.example.com"), ("port", "example.com", "example.com:8080"),
+                ("port", "example.com", "example.com"), ("alt", "example.com|x.y", "x.y"), ("ci", "example.com", "example.com"), ("ci", "example.com", "Example.COM"),
+                ("lit", "CDN.example.com", "CDN.example.com")]
+CASE_TABLES = [
+    [["lit", "CDN.example.com"], ["ci", "cdn.example.com"]],
+    [["ci", "cdn.example.com"], ["lit", "CDN.example.com"]],
+    [["lit", "cdn.example.com"], ["lit", "CDN.EXAMPLE.COM"], ["lit", "Cdn.Example.Com"]],
+    [["lit", "cdn.example.com"], ["ci", "cdn.example.com"], ["sub", "example.com"]],
+    [["sub", "EXAMPLE.com"], ["ci", "cdn.example.com"], ["sub", "example.com"]],
+    [["port", "cdn.example.com"], ["ci", "cdn.example.com:80"], ["lit", "CDN.EXAMPLE.COM"]],
+]
+CASE_VALUES = ["cdn.example.com", "CDN.example.com", "CDN.EXAMPLE.COM", "Cdn.Example.Com", "cdn.example.com:80", "CDN.EXAMPLE.COM:80", "evil.com"]
+
+
 def hosts_seq_cases():
     for table in HOSTS_SEQ_TABLES:
         for n in (2, 3):
@@ -763,6 +838,19 @@ def hosts_seq_cases():
                 if len(set(combo)) < 2:
                     continue
                 yield {"table": table, "seq": list(combo)}
+    # every pattern kind: a member, then (or after, or around) every near-miss of it, on one Hosts object; each answer is judged on its own
+    for kind, lit, member in KIND_MEMBERS:
+        for table in ([[kind, lit]], [[kind, lit], ["lit", "other.org"]], [["lit", "other.org"], [kind, lit]]):
+            for j in junk_hosts(member)[1:] + [None, ""]:
+                for combo in ((member, j), (j, member), (member, j, member)):
+                    yield {"table": table, "seq": list(combo), "near_miss": True}
+    # entries that differ in letter case only / accept every letter case, x Host values that differ in letter case only
+    for table in CASE_TABLES:
+        for n in (2, 3):
+            for combo in itertools.product(CASE_VALUES, repeat=n):
+                if len(set(combo)) < 2:
+                    continue
+                yield {"table": table, "seq": list(combo), "near_miss": True}
 
 
 def run(rec, only=None):
@@ -777,6 +865,9 @@ def run(rec, only=None):
             core.run_sharded(rec, enum_shard, 8 if quick else 16, procs if quick else core.ncpu(), (sub, not quick))
             rec.exhaustive[sub] = True
     core.drive_hypothesis(rec, "mounts", mount_case(), oracle_mounts, 1500 if quick else 30000)
+    core.drive_hypothesis(rec, "mount_seqs", mount_seq_case(), oracle_mount_seq, 400 if quick else 8000, seed_offset=2)
+    if want("mount_seqs"):
+        rec.exhaustive["mount_seqs"] = False
     core.drive_cases(rec, "hosts_fixed", host_fixed_cases(), oracle_hosts)
     if want("hosts_seq"):
         core.run_sharded(rec, enum_shard, 8, procs, ("hosts_seq", not quick))
